@@ -86,3 +86,54 @@ Fixpoint wf (p : pred) : bool :=
       (fix go (l : list pred) : bool := match l with [] => true | x :: l' => wf x && go l' end) parts
   | _ => true
   end.
+
+(* ---- conditions that RAISE on some nodes (a condition written for one node shape, `n.func.id == "f"`, asked about another).
+   `envx c` = Some b: base condition c answers b at the node; None: it raises.  Every value below is `option bool`, None = an
+   exception leaves the evaluation; the *_x decision functions of gen/PredGen.v follow Python's evaluation order (`or`, `and`,
+   `x if c else y` evaluate only what Python evaluates), comp_part_guard is what CompositePredicate.__call__ does with a part
+   that raises, and any() / all() stop at the first deciding element. *)
+Definition reduce_x (is_any : bool) : list (option bool) -> option bool :=
+  fix go (l : list (option bool)) : option bool :=
+    match l with
+    | [] => Some (negb is_any)
+    | None :: _ => None
+    | Some b :: l' => if Bool.eqb b is_any then Some is_any else go l'
+    end.
+
+Section AtNodeX.
+  Variable envx : N -> option bool.
+
+  Fixpoint evalx (p : pred) : option bool * option bool :=
+    match p with
+    | PTrue => (Some true, base_dynamic_call_x singleton_static (Some true))
+    | PFalse => (Some false, base_dynamic_call_x singleton_static (Some false))
+    | PBase s c => (envx c, base_dynamic_call_x s (envx c))
+    | PComp a parts =>
+        let rs := (fix go (l : list pred) : list (bool * (option bool * option bool)) :=
+                     match l with [] => [] | x :: l' => (p_static x, evalx x) :: go l' end) parts in
+        let elt := fun (r : bool * (option bool * option bool)) =>
+                     comp_part_guard (if comp_parts_use_full_call then fst (snd r) else snd (snd r)) in
+        let call_all := reduce_x a (map elt rs) in
+        let call_dyn := reduce_x a (map elt (filter (fun r => comp_is_dynamic_part (fst r)) rs)) in
+        (call_all, comp_dynamic_call_x (p_static p) call_all call_dyn)
+    end.
+
+  (* the rewriter's decision for the site: None = the exception leaves AstRewriter.visit, nothing is rewritten *)
+  Definition site_x (hs : list pred) : option bool := fst (evalx (if site_reducer_is_any then pany hs else pall hs)).
+  (* _emit_event's test sits in a try: an exception skips the handler (should_propagate_handler_exception is False by default;
+     the translator checks the try) *)
+  Definition deliver_x (p : pred) : bool :=
+    match deliver_test_x (ident_eqb (ident_of p) IsTrue) (p_static p) (snd (evalx p)) (fst (evalx p)) with
+    | Some b => b | None => false end.
+  Definition invoked_x (hs : list pred) (p : pred) : option bool :=
+    match site_x hs with Some s => Some (s && deliver_x p) | None => None end.
+End AtNodeX.
+
+Definition invoked_gx (envx : N -> option bool) (G : N -> bool) (hs : list pred) (gs : list N) (p : pred) (g : option N) : option bool :=
+  match site_x envx hs with
+  | Some s => Some (negb (pristine_taken G gs) && s && negb (guard_skips G g) && deliver_x envx p)
+  | None => None
+  end.
+
+(* "a condition that raises for a node is not satisfied by it" *)
+Definition total (envx : N -> option bool) (c : N) : bool := match envx c with Some b => b | None => false end.
